@@ -146,6 +146,13 @@ def cases(tier):
     for desc in design.family_hier(tier):
         for order in core.ORDER_VARIANTS:
             out.append((desc, order))
+    # every sharing shape of a hierarchy up to five levels deep (fixed pass-through wiring)
+    for desc in design.shape_family(5 if tier == "thorough" else 4):
+        out.append((desc, "asc"))
+        if 2 in desc[1] and (tier == "thorough" or len(desc[1]) <= 3):
+            out.append((desc, "desc"))
+            out.append((desc, "asc", "second-round"))
+            out.append((desc, "asc", "edif-identifiers"))
     # pre-existing siblings named like the names uniquify will generate
     for desc in design.family_hier(tier, variants=("plain",)):
         if desc[0] in ("K2-shared", "K6-shared-two-depths", "K7-shared-both"):
